@@ -60,7 +60,7 @@ def scopes(chk):
     sc.append(('defs', {'Budget': 3, 'TextPool': ['a', ' '], 'ComPool': [], 'MathKinds': ['$'], 'MEnvNames': [], 'VerbNames': [], 'ListNames': [],
                         'Leaves': D.DEF_LEAVES, 'MaxSib': 3}))
     # a user-supplied skip_envs extends the built-in verbatim-like names, it does not replace them
-    sc.append(('userskip', {'Budget': 3, 'UserSkipG': ['myverb'], 'VerbNames': ['verbatim', 'lstlisting', 'myverb'], 'VerbBodies': [' $ { ', '\n\\a {x}\n', '100%\nz'],
+    sc.append(('userskip', {'Budget': 3, 'UserSkipG': ['myverb'], 'VerbNames': ['verbatim', 'lstlisting', 'myverb'], 'VerbBodies': [' $ { ', '\n\\a {x}\n', '100%\nz', 'T \\end{ x', '\\end{$}'],
                             'TextPool': ['t', ' '], 'ComPool': [], 'MathKinds': [], 'MEnvNames': [], 'Leaves': [], 'ListNames': [], 'MaxSib': 2}))
     return sc
 
